@@ -119,15 +119,22 @@ def run(ctx):
         t1.fail("C18.T1:radix", pars.path, pars.span, "parser scales the fraction by powers of %s, expected 10" % radix)
     else:
         t1.site("FromStr: fraction * 10^(18 - len)")
-    muls = [v for b, v in calls_named(P, pars, "mul") if "U256" in v[3]]
+    # through private helpers: look at the (inlined) result values
+    inl_exits = [(b, cls, common.inline_helpers(P, v)) for (b, i, cls, v) in common.exit_sites(P, pars)]
+    muls, fdecs = [], []
+    for b, cls, v in inl_exits:
+        for y in common.walk(v):
+            if y[0] == "call" and isinstance(y[3], str) and common.last_seg(y[3]) == "mul" and "U256" in y[3] and y not in muls:
+                muls.append(y)
+            if y[0] == "call" and isinstance(y[3], str) and common.last_seg(y[3]) == "from_dec_str" and y not in fdecs:
+                fdecs.append(y)
     whole_muls = [v for v in muls if v[4][1] == SCALE_ITEM]
-    fdecs = [v for b, v in calls_named(P, pars, "from_dec_str")]
     if len(whole_muls) < 1 or len(fdecs) < 2:
         t1.fail("C18.T1:parser-whole", pars.path, pars.span, "parser does not compute whole * DECIMAL_FRACTIONAL from from_dec_str parts")
     else:
         t1.site("FromStr: whole * SCALE (+ fraction), parts via U256::from_dec_str (radix 10)")
     # results: exactly the two Ok shapes
-    for (b, i, cls, v) in common.exit_sites(P, pars):
+    for (b, cls, v) in inl_exits:
         if cls == "ok":
             val = v[3][0][1]
             inner = val[3][0][1] if val[0] == "agg" else val
